@@ -52,6 +52,8 @@ type HarnessResult struct {
 	Unknown       int                `json:"unknown"`
 	SolverErrors  int                `json:"solver_errors"`
 	Fallback      int                `json:"fallback_queries"`
+	HybridMiss    int                `json:"queries_passed_to_bitblaster"`
+	BadModels     int                `json:"models_rejected_by_evaluation"`
 	SolverTime    float64            `json:"solver_time_s"`
 	Wall          float64            `json:"wall_s"`
 	Functions     []string           `json:"functions_encoded"`
@@ -253,6 +255,7 @@ func main() {
 			Unsupported: ex2.Unsupported, Samples: ex2.Samples,
 			Queries: solver.Queries - q0, Sat: solver.NSat - s0, Unsat: solver.NUnsat - u0, Unknown: solver.NUnknown - k0,
 			SolverErrors: solver.NErrors - e0, Fallback: solver.FallbackQ - f0,
+			HybridMiss: solver.NHybridMiss, BadModels: solver.NBadModel,
 			SolverTime: (solver.SolveTime - st0).Seconds(), Wall: time.Since(h0).Seconds(),
 			GoSpawned: ex2.GoSpawned, Unwind: ex2.unwind, ReverseMaps: reverseMaps, Validation: ex2.Validation,
 		}
